@@ -247,6 +247,17 @@ inductive BStage where
   | gbsum (f : KeyFn) (k : Int)
   | reduce (g : Agg)
   | replay (l : LoopSpec)
+  /-- `group_by(key).window(CountWindow::sliding(n, s)).fold(count).unkey()` -/
+  | gbwin (f : KeyFn) (k : Int) (n s : Nat)
+  /-- `group_by_fold(key, agg).unkey()` -/
+  | gbfold (f : KeyFn) (k : Int) (g : Agg)
+  /-- inner hash join with the side input of the loop, key dropped -/
+  | joinside (f1 : KeyFn) (k1 : Int) (f2 : KeyFn) (k2 : Int)
+  /-- merge with the side input of the loop -/
+  | mergeside
+  /-- nested `iterate`: only its state continues the enclosing body (the items output of `iterate`
+      leaves all enclosing loops: iterate.rs creates its output block with an empty iteration context) -/
+  | iterate (l : LoopSpec)
 inductive LoopSpec where
   | mk (iters : Nat) (init : Int) (agg : Agg) (cp : PredFn) (ck : Int) (body : List BStage)
 end
@@ -265,11 +276,14 @@ def loopRun (feedback : Bool) (body : Int → List V → List V) (agg : Agg) (cp
     else (st', out)
 
 def gbSumS (f : KeyFn) (k : Int) (l : List V) : List V :=
-  (dedup (l.map (f.eval k))).map fun key =>
-    V.int ((projs (l.filter fun v => f.eval k v = key)).foldl (· + ·) 0)
+  (keyedFoldS .sum (keyByS f k l)).map V.snd
 
-/-- one body stage; `st` is the state of the innermost enclosing loop; `fuel` bounds nesting -/
-def evalStage : Nat → BStage → Int → List V → List V
+def joinSideS (f1 : KeyFn) (k1 : Int) (f2 : KeyFn) (k2 : Int) (xs side : List V) : List V :=
+  (joinS .inner (f1.eval k1) (f2.eval k2) xs side).map V.snd
+
+/-- one body stage; `side` is the side input of the outermost loop (the same multiset every round),
+    `st` the state of the innermost enclosing loop; `fuel` bounds nesting -/
+def evalStage (side : List V) : Nat → BStage → Int → List V → List V
   | 0, _, _, xs => xs
   | _ + 1, .map f k, _, xs => xs.map (f.eval k)
   | _ + 1, .filter f k, _, xs => xs.filter (f.eval k)
@@ -278,16 +292,23 @@ def evalStage : Nat → BStage → Int → List V → List V
   | _ + 1, .addst k, st, xs => xs.map fun v => V.int (v.proj + emod st k)
   | _ + 1, .gbsum f k, _, xs => gbSumS f k xs
   | _ + 1, .reduce g, _, xs => reduceS g xs
+  | _ + 1, .gbwin f k n s, _, xs => keyedWinS n s .cnt (keyByS f k xs)
+  | _ + 1, .gbfold f k g, _, xs => keyedFoldS g (keyByS f k xs)
+  | _ + 1, .joinside f1 k1 f2 k2, _, xs => joinSideS f1 k1 f2 k2 xs side
+  | _ + 1, .mergeside, _, xs => xs ++ side
   | fuel + 1, .replay (.mk iters init agg cp ck body), _, xs =>
-    [V.int (loopRun false (fun st ys => body.foldl (fun acc s => evalStage fuel s st acc) ys)
+    [V.int (loopRun false (fun st ys => body.foldl (fun acc s => evalStage side fuel s st acc) ys)
+      agg cp ck (max iters 1) init xs).1]
+  | fuel + 1, .iterate (.mk iters init agg cp ck body), _, xs =>
+    [V.int (loopRun true (fun st ys => body.foldl (fun acc s => evalStage side fuel s st acc) ys)
       agg cp ck (max iters 1) init xs).1]
 
-def evalBody (fuel : Nat) (body : List BStage) (st : Int) (xs : List V) : List V :=
-  body.foldl (fun acc s => evalStage fuel s st acc) xs
+def evalBody (side : List V) (fuel : Nat) (body : List BStage) (st : Int) (xs : List V) : List V :=
+  body.foldl (fun acc s => evalStage side fuel s st acc) xs
 
-def LoopSpec.run (feedback : Bool) (fuel : Nat) : LoopSpec → List V → Int × List V
+def LoopSpec.run (feedback : Bool) (fuel : Nat) (side : List V) : LoopSpec → List V → Int × List V
   | .mk iters init agg cp ck body, xs =>
-    loopRun feedback (evalBody fuel body) agg cp ck (max iters 1) init xs
+    loopRun feedback (evalBody side fuel body) agg cp ck (max iters 1) init xs
 
 /-! ### Jobs -/
 
@@ -296,7 +317,7 @@ structure Ref where
   port : Nat
   deriving DecidableEq, Repr
 
-inductive Rep | u | one | lim (k : Nat)
+inductive Rep | u | one | lim (k : Nat) | host
   deriving DecidableEq, Repr
 
 inductive Kind where
@@ -331,8 +352,8 @@ inductive Kind where
   | join (a b : Ref) (v : JVar) (ship : Ship) (f1 : KeyFn) (k1 : Int) (f2 : KeyFn) (k2 : Int)
   | kjoin (a b : Ref) (v : JVar)
   | route (a : Ref) (ps : List (PredFn × Int))
-  | replay (a : Ref) (l : LoopSpec)
-  | iterate (a : Ref) (l : LoopSpec)
+  | replay (a : Ref) (side : Option Ref) (l : LoopSpec)
+  | iterate (a : Ref) (side : Option Ref) (l : LoopSpec)
   | sink (a : Ref)
 
 structure Node where
@@ -371,6 +392,7 @@ inductive Sem (σ : Type) where
   | un (a : Ref) (kin kout : Bool) (f : σ → σ)
   | bin (a b : Ref) (kin kout : Bool) (f : σ → σ → σ)
   | multi (a : Ref) (fs : List (σ → σ))
+  | bmulti (a b : Ref) (fs : List (σ → σ → σ))
   | sink (a : Ref) (f : σ → σ)
 
 /-- `none` if an input is missing or of the wrong kind; else (keyed?, value of each port, sink value) -/
@@ -380,6 +402,8 @@ def runSem {σ} (s : St σ) : Sem σ → Option (Bool × List σ × Option σ)
   | .bin a b kin kout f => (s.get a (Option.some kin)).bind fun x => (s.get b (Option.some kin)).bind fun y =>
       Option.some (kout, [f x y], Option.none)
   | .multi a fs => (s.get a (Option.some false)).bind fun x => Option.some (false, fs.map (· x), Option.none)
+  | .bmulti a b fs => (s.get a (Option.some false)).bind fun x => (s.get b (Option.some false)).bind fun y =>
+      Option.some (false, fs.map (fun f => f x y), Option.none)
   | .sink a f => (s.get a Option.none).bind fun x => Option.some (false, [], Option.some (f x))
 
 def stepWith {σ} (sem : Node → Sem σ) (s : St σ) (n : Node) : St σ :=
@@ -432,8 +456,12 @@ def seqSem (n : Node) : Sem (List V) :=
   | .join a b v ship f1 c1 f2 c2 => .bin a b false (ship == .hash) (joinS v (f1.eval c1) (f2.eval c2))
   | .kjoin a b v => .bin a b true true (keyedJoinS v)
   | .route a ps => .multi a ((List.range ps.length).map fun j => routeS ps j)
-  | .replay a l => .un a false false fun x => [V.int (l.run false loopFuel x).1]
-  | .iterate a l => .multi a [fun x => [V.int (l.run true loopFuel x).1], fun x => (l.run true loopFuel x).2]
+  | .replay a Option.none l => .un a false false fun x => [V.int (l.run false loopFuel [] x).1]
+  | .replay a (Option.some b) l => .bin a b false false fun x sd => [V.int (l.run false loopFuel sd x).1]
+  | .iterate a Option.none l =>
+    .multi a [fun x => [V.int (l.run true loopFuel [] x).1], fun x => (l.run true loopFuel [] x).2]
+  | .iterate a (Option.some b) l =>
+    .bmulti a b [fun x sd => [V.int (l.run true loopFuel sd x).1], fun x sd => (l.run true loopFuel sd x).2]
   | .sink a => .sink a id
 
 def seqRun (job : Job) : St (List V) := job.foldl (stepWith seqSem) {}
@@ -451,11 +479,14 @@ abbrev D := List (List V)
     deployment: scheduler.rs), `Limited(k)` is clamped, `One` is 1 -/
 structure Cfg where
   par : Nat
+  /-- number of hosts (`Replication::Host`: one replica per host) -/
+  hosts : Nat := 1
 
 def Cfg.count (c : Cfg) : Rep → Nat
   | .u => max c.par 1
   | .one => 1
   | .lim k => max (min k c.par) 1
+  | .host => max c.hosts 1
 
 /-- the schedule as data: a hash function (group_by_hash), a routing choice per (node, element index)
     for `Random` routing / source partitioning, and a merge choice per (node, position) -/
@@ -512,6 +543,58 @@ def keyedCombineS (g : Agg) (l : List V) : List V :=
 
 def byKey (o : Orc) : Nat → V → Nat := fun _ v => o.hash v.fst
 
+/-- The loop protocol in parallel (iteration_end.rs / leader.rs): every replica of the last body
+    block folds its share with the local function into a delta (an empty replica sends the default
+    0), the leader folds the deltas — in arrival order — into the global state with the global
+    function. -/
+def parLoopRun (feedback : Bool) (body : Int → D → D) (agg : Agg) (cp : PredFn) (ck : Int) (c : Nat → Nat) :
+    Nat → Int → D → Int × D
+  | 0, st, d => (st, d)
+  | n + 1, st, d =>
+    let out := body st d
+    let deltas := permBy c (out.map fun l => V.int ((projs l).foldl agg.loc 0))
+    let st' := (projs deltas).foldl agg.glob st
+    if cp.eval ck (.int st') && n != 0 then
+      parLoopRun feedback body agg cp ck c n st' (if feedback then out else d)
+    else (st', out)
+
+/-- one body stage over a distributed stream (`n` = replicas of an unlimited block, `side` = the
+    distributed side input) -/
+def parStage (n : Nat) (o : Orc) (id : Nat) (side : D) : Nat → BStage → Int → D → D
+  | 0, _, _, d => d
+  | _ + 1, .map f k, _, d => d.map (List.map (f.eval k))
+  | _ + 1, .filter f k, _, d => d.map (List.filter (f.eval k))
+  | _ + 1, .fmap f k, _, d => d.map (List.flatMap (f.eval k))
+  | _ + 1, .shuffle, _, d => exchange n (fun i _ => o.route id i) (o.merge id) d
+  | _ + 1, .addst k, st, d => d.map (List.map fun v => V.int (v.proj + emod st k))
+  | _ + 1, .gbsum f k, _, d =>
+    ((exchange n (byKey o) (o.merge id) (d.map fun l => keyedFoldS .sum (keyByS f k l))).map
+      (keyedCombineS .sum)).map (List.map V.snd)
+  | _ + 1, .reduce g, _, d => (gather (o.merge id) d).map (reduceS g)
+  | _ + 1, .gbwin f k w s, _, d =>
+    (exchange n (byKey o) (o.merge id) (d.map (keyByS f k))).map (keyedWinS w s .cnt)
+  | _ + 1, .gbfold f k g, _, d =>
+    (exchange n (byKey o) (o.merge id) (d.map fun l => keyedFoldS g (keyByS f k l))).map (keyedCombineS g)
+  | _ + 1, .joinside f1 k1 f2 k2, _, d =>
+    (List.zipWith (joinS .inner (f1.eval k1) (f2.eval k2))
+      (exchange n (fun _ e => o.hash (f1.eval k1 e)) (o.merge id) d)
+      (exchange n (fun _ e => o.hash (f2.eval k2 e)) (o.merge id) side)).map (List.map V.snd)
+  | _ + 1, .mergeside, _, d => (zipAppend d side).map (permBy (o.merge id))
+  | fuel + 1, .replay (.mk iters init agg cp ck body), _, d =>
+    [[V.int (parLoopRun false (fun st x => body.foldl (fun acc s => parStage n o id side fuel s st acc) x)
+      agg cp ck (o.merge id) (max iters 1) init d).1]]
+  | fuel + 1, .iterate (.mk iters init agg cp ck body), _, d =>
+    [[V.int (parLoopRun true (fun st x => body.foldl (fun acc s => parStage n o id side fuel s st acc) x)
+      agg cp ck (o.merge id) (max iters 1) init d).1]]
+
+def parBody (n : Nat) (o : Orc) (id : Nat) (side : D) (fuel : Nat) (body : List BStage) (st : Int) (d : D) : D :=
+  body.foldl (fun acc s => parStage n o id side fuel s st acc) d
+
+def LoopSpec.parRun (feedback : Bool) (n : Nat) (o : Orc) (id : Nat) (fuel : Nat) (side : D) :
+    LoopSpec → D → Int × D
+  | .mk iters init agg cp ck body, d =>
+    parLoopRun feedback (parBody n o id side fuel body) agg cp ck (o.merge id) (max iters 1) init d
+
 /-- **Parallel meaning of one node** for replica-count parameter `cfg` and schedule `o`. -/
 def parSem (cfg : Cfg) (o : Orc) (n : Node) : Sem D :=
   let nU := cfg.count .u
@@ -560,9 +643,13 @@ def parSem (cfg : Cfg) (o : Orc) (n : Node) : Sem D :=
       | .bcast => x.map fun l => joinS v (f1.eval c1) (f2.eval c2) l (permBy mg y.flatten)
   | .kjoin a b v => .bin a b true true fun x y => List.zipWith (keyedJoinS v) x y
   | .route a ps => .multi a ((List.range ps.length).map fun j => List.map (routeS ps j))
-  | .replay a l => .un a false false fun d => [[V.int (l.run false loopFuel d.flatten).1]]
-  | .iterate a l => .multi a [fun d => [[V.int (l.run true loopFuel d.flatten).1]],
-                              fun d => [(l.run true loopFuel d.flatten).2]]
+  | .replay a Option.none l => .un a false false fun d => [[V.int (l.parRun false nU o n.id loopFuel [[]] d).1]]
+  | .replay a (Option.some b) l => .bin a b false false fun d sd =>
+      [[V.int (l.parRun false nU o n.id loopFuel sd d).1]]
+  | .iterate a Option.none l => .multi a [fun d => [[V.int (l.parRun true nU o n.id loopFuel [[]] d).1]],
+                                          fun d => (l.parRun true nU o n.id loopFuel [[]] d).2]
+  | .iterate a (Option.some b) l => .bmulti a b [fun d sd => [[V.int (l.parRun true nU o n.id loopFuel sd d).1]],
+                                                 fun d sd => (l.parRun true nU o n.id loopFuel sd d).2]
   | .sink a => .sink a (gather mg)
 
 def parRun (cfg : Cfg) (o : Orc) (job : Job) : St D := job.foldl (stepWith (parSem cfg o)) {}
@@ -571,18 +658,75 @@ def parRun (cfg : Cfg) (o : Orc) (job : Job) : St D := job.foldl (stepWith (parS
 def parEval (cfg : Cfg) (o : Orc) (job : Job) : List (Nat × List V) :=
   (parRun cfg o job).sinks.map fun p => (p.1, p.2.flatten)
 
-/-- The fragment of the composition theorem `parEval_perm_seqEval`. Excluded (order- or
-    deployment-sensitive, see Props/C01.lean): `keyBy` (no repartitioning: equal keys are co-located
-    only on a single replica), count windows, `zip`, keyed join (needs co-partitioning of two
-    streams), loops; and the stages whose composition proof is not finished (`reduce_assoc`, keyed reductions, the keyed
-    two-phase aggregations `group_by_fold/reduce/sum/count` — their stage law is
-    `keyed_twoPhase` —, joins, broadcast). -/
-def Kind.orderInsensitive : Kind → Bool
-  | .iter _ | .par .. | .map .. | .filter .. | .fmap .. | .shuffle _ | .repl .. | .repart ..
-  | .groupBy .. | .kmap .. | .kfilter .. | .kfold .. | .unkey _ | .dropKey _ | .fold .. | .foldA ..
-  | .reduce .. | .merge .. | .route .. | .sink _ => true
-  | _ => false
+/-! ### Static coverage analysis
 
-def orderInsensitive (job : Job) : Bool := job.all fun n => n.kind.orderInsensitive
+`parEval_perm_seqEval` holds for every sink that is not downstream of a stage outside the theorem.
+Which sinks these are is decided by running the job once more over static tags. -/
+
+structure Tag where
+  /-- every stage upstream is covered by the theorem and correctly placed -/
+  ok : Bool
+  /-- keyed stream whose equal keys are co-located (hash partitioned, or a single replica) -/
+  coloc : Bool
+  /-- the stream has a single replica -/
+  single : Bool
+  deriving DecidableEq, Repr
+
+def Tag.plain (t : Tag) : Tag := { t with coloc := false }
+
+/-- tag of the output of a unary stage. Not covered (`ok := false`): count windows with an
+    aggregate other than `cnt` (order sensitive; with `cnt` the result depends only on the per-key
+    number of elements), a keyed fold / reduce of a keyed stream that is not co-located (`key_by` of a
+    multi-replica stream), `broadcast` + a non-idempotent reduction. -/
+def Kind.tagUn (k : Kind) (t : Tag) : Tag :=
+  match k with
+  | .map .. | .filter .. | .fmap .. | .unkey _ | .dropKey _ | .route .. => t.plain
+  | .shuffle _ => ⟨t.ok, false, false⟩
+  | .repl _ r | .repart _ r _ _ => ⟨t.ok, false, r == .one⟩
+  | .bcast _ g => ⟨t.ok && (g == .min || g == .max), false, true⟩
+  | .groupBy .. | .gbFold .. | .gbReduce .. | .gbSum .. | .gbCount .. => ⟨t.ok, true, false⟩
+  | .keyBy .. => ⟨t.ok, t.single, t.single⟩
+  | .kmap .. | .kfilter .. => t
+  | .kfold .. | .kreduce .. => ⟨t.ok && t.coloc, t.coloc, t.single⟩
+  | .kwin _ _ _ g => ⟨t.ok && t.coloc && g == .cnt, t.coloc, t.single⟩
+  | .fold .. | .foldA .. | .reduce .. | .reduceA .. | .replay .. => ⟨t.ok, false, true⟩
+  | .sink _ => t
+  | _ => ⟨false, false, false⟩
+
+/-- tag of the output of a binary stage. Not covered: `zip` (order sensitive), keyed join, and the
+    combination broadcast-right + outer (not offered by the API). -/
+def Kind.tagBin (k : Kind) (a b : Tag) : Tag :=
+  match k with
+  | .merge .. => ⟨a.ok && b.ok, false, a.single && b.single⟩
+  | .replay .. => ⟨a.ok && b.ok, false, true⟩
+  | .join _ _ v ship .. =>
+    match ship with
+    | .hash => ⟨a.ok && b.ok, true, false⟩
+    | .bcast => ⟨a.ok && b.ok && v != .outer, false, a.single⟩
+  | _ => ⟨false, false, false⟩
+
+/-- the sequential evaluator paired with the static tags -/
+def tagSem (n : Node) : Sem (Tag × List V) :=
+  match seqSem n with
+  | .src v => .src (⟨true, false, match n.kind with | .iter _ => true | _ => false⟩, v)
+  | .un a kin kout f => .un a kin kout fun x => (n.kind.tagUn x.1, f x.2)
+  | .bin a b kin kout f => .bin a b kin kout fun x y => (n.kind.tagBin x.1 y.1, f x.2 y.2)
+  | .multi a fs =>
+    match n.kind with
+    | .iterate .. =>
+      .multi a (fs.zipIdx.map fun (f, i) => fun x => (⟨x.1.ok, false, i == 0⟩, f x.2))
+    | _ => .multi a (fs.map fun f => fun x => (n.kind.tagUn x.1, f x.2))
+  | .bmulti a b fs =>
+    .bmulti a b (fs.zipIdx.map fun (f, i) => fun x y => (⟨x.1.ok && y.1.ok, false, i == 0⟩, f x.2 y.2))
+  | .sink a f => .sink a fun x => (x.1, f x.2)
+
+def tagRun (job : Job) : St (Tag × List V) := job.foldl (stepWith tagSem) {}
+
+/-- the sinks covered by `parEval_perm_seqEval` -/
+def coveredSinks (job : Job) : List Nat :=
+  ((tagRun job).sinks.filter fun p => p.2.1.ok).map (·.1)
+
+/-- every sink of the job is covered -/
+def orderInsensitive (job : Job) : Bool := (tagRun job).sinks.all fun p => p.2.1.ok
 
 end Noir.Pipe
